@@ -70,6 +70,15 @@ class PathEnv:
         init = v.get("init")
         if not is_node(init):
             return
+        i0 = init
+        while is_node(i0) and i0["k"] in ("Cast", "Construct") and (i0.get("e") is not None or len(i0.get("args", [])) == 1):
+            i0 = i0["e"] if i0.get("e") is not None else i0["args"][0]
+        if is_node(i0) and i0["k"] == "Call" and i0.get("short") in ("begin", "cbegin") and not i0.get("args"):
+            # an iterator over a container stands for its elements: `for (auto it = c.begin(); it != c.end(); ++it) it->f()`
+            rp = self.path(i0["recv"]) if is_node(i0.get("recv")) else (THIS if i0.get("recv") is None else None)
+            if rp is not None:
+                self.alias[v["id"]] = rp + ("[*]",)
+                return
         if t.rstrip().endswith("&") or t.rstrip().endswith("*"):
             p = self.path(init)
             if p is not None:
@@ -644,7 +653,8 @@ class Summarizer:
         cont = env.path(first["recv"])
         elem = None if cont is None else cont + ("[*]",)
         lamfn = self.F.fns[lam]
-        loop = ("repeat " + show(first["recv"]) + ".size()",) if False else ("each " + show(first["recv"]),)
+        sized = flow.range_sizes(fn.get("body")).get(id(n))
+        loop = (("repeat " + sized) if sized else ("each " + show(first["recv"])),)
         out = []
 
         def into_caller(ev):
